@@ -189,6 +189,8 @@ class Interp:
         self.poll_hook = None              # fn(interp, pin, future_value) -> output value or None
         self.bv_arith = None               # fn(interp, op, a, b) -> value or None (arithmetic on bit vectors)
         self.unknown_call = None           # fn(interp, name, args, term) -> value or None: last resort for calls without a model
+        self.assert_log = None             # {(file, line, kind): {'ok' | 'fail' | 'unknown'}} when a caller audits rustc-emitted checks
+        self.bv_cmp = None                 # (a_bits, b_bits) -> '<' | '=' | '>' : an order on bit vectors supplied by the caller (hand-written Ord of a packed word)
         self.symbolic_len = False          # Vec::len of a non-empty abstract collection is an unknown number
         self.callable_hook = None          # fn(interp, callee_value, args) -> value or None: calling a value that is not a closure
         self.trace = []
@@ -441,6 +443,9 @@ class Interp:
         raise Unmodelled('binary %s on %s, %s' % (op, a[0], b[0]))
 
     def bv_binop(self, op, a, b):
+        if op in ('Lt', 'Le', 'Gt', 'Ge', 'Eq', 'Ne') and self.bv_cmp is not None and a[0] == 'bv' and b[0] == 'bv':
+            r = self.bv_cmp(a[1], b[1])
+            return mk_bool({'Lt': r == '<', 'Le': r in '<=', 'Gt': r == '>', 'Ge': r in '>=', 'Eq': r == '=', 'Ne': r != '='}[op])
         if op in ('Lt', 'Le', 'Gt', 'Ge', 'Eq', 'Ne'):
             def desc(v):
                 if v[0] == 'int' and v[1] is not None:
@@ -564,6 +569,16 @@ class Interp:
                     dh(self, body, t['pl']['l'])
                 b = t['target']
             elif k == 'assert':
+                # (rustc's own checks are not followed to their panic edge; what the check saw is recorded for audits of may-panic sites)
+                if self.assert_log is not None:
+                    try:
+                        cv = self.operand(frame, t['cond'])
+                    except (Unmodelled, KeyError, IndexError, TypeError):
+                        cv = None
+                    if cv is not None and cv[0] == 'int' and cv[1] in (0, 1):
+                        cv = mk_bool(bool(cv[1]))
+                    res_ = 'unknown' if cv is None or cv[0] != 'bool' or cv[1] is None else ('ok' if bool(cv[1]) == bool(t['expected']) else 'fail')
+                    self.assert_log.setdefault((body.file, t['cs'], t['msg']), set()).add(res_)
                 b = t['target']
             elif k == 'switch':
                 v = self.operand(frame, t['discr'])
@@ -743,6 +758,10 @@ class Interp:
                 r_ = '<' if (str(a[1]) < str(b[1]) if a[0] != 'int' else a[1] < b[1]) else ('=' if a[1] == b[1] else '>')
                 o_ = ('adt', 'core::cmp::Ordering', {'<': 0, '=': 1, '>': 2}[r_], [])
                 return o_ if name.endswith('::cmp') else mk_option(o_)
+            if a[0] == 'bv' and b[0] == 'bv' and self.bv_cmp is not None:
+                r = self.bv_cmp(a[1], b[1])
+                o = ('adt', 'core::cmp::Ordering', {'<': 0, '=': 1, '>': 2}[r], [])
+                return o if name.endswith('::cmp') else mk_option(o)
             if a[0] not in ('ts', 'dur') or b[0] != a[0]:
                 raise Unmodelled('cmp on %s' % a[0])
             r = self.order.cmp(a[1], b[1])
@@ -1014,6 +1033,9 @@ class Interp:
         raise Unmodelled('call to %s is not modelled' % name)
 
     def compare_values(self, seg, a, b):
+        if a[0] == 'bv' and b[0] == 'bv' and self.bv_cmp is not None:
+            r = self.bv_cmp(a[1], b[1])
+            return mk_bool({'lt': r == '<', 'le': r in '<=', 'gt': r == '>', 'ge': r in '>=', 'eq': r == '=', 'ne': r != '='}[seg])
         if a[0] in ('ts', 'dur') and b[0] == a[0]:
             return mk_bool(self.ts_rel(seg, a, b))
         if a[0] in ('key', 'addr', 'node') and b[0] == a[0] and seg in ('eq', 'ne'):
